@@ -11,7 +11,7 @@ Definition Rsum (l : list R) : R := fold_right Rplus 0 l.
 
 Lemma fold_left_Rplus l a : fold_left Rplus l a = a + Rsum l.
 Proof. revert a; induction l as [|x l IH]; intros a; simpl; [lra|]. rewrite IH; lra. Qed.
-Lemma psum_R l : @psum R NumR l = Rsum l.
+Lemma psum_Rsum l : @psum R NumR l = Rsum l.
 Proof. unfold psum; numR. change (@nadd R NumR) with Rplus. rewrite fold_left_Rplus; lra. Qed.
 Lemma Rsum_app l1 l2 : Rsum (l1 ++ l2) = Rsum l1 + Rsum l2.
 Proof. induction l1; simpl; lra. Qed.
@@ -41,12 +41,12 @@ Lemma Rsum_flat_map {A B} (g : A -> list B) (h : B -> R) l :
 Proof. induction l; simpl; [lra|]. rewrite map_app, Rsum_app, IHl. lra. Qed.
 
 (* the Num operations at R, spelled out *)
-Lemma nadd_R x y : @nadd R NumR x y = x + y. Proof. reflexivity. Qed.
-Lemma nmul_R x y : @nmul R NumR x y = x * y. Proof. reflexivity. Qed.
-Lemma nsub_R x y : @nsub R NumR x y = x - y. Proof. reflexivity. Qed.
-Lemma n0_R : @n0 R NumR = 0. Proof. reflexivity. Qed.
-Lemma n1_R : @n1 R NumR = 1. Proof. reflexivity. Qed.
-Lemma ndiv_R x y : y <> 0 -> @ndiv R NumR x y = x / y.
+Lemma nadd_real x y : @nadd R NumR x y = x + y. Proof. reflexivity. Qed.
+Lemma nmul_real x y : @nmul R NumR x y = x * y. Proof. reflexivity. Qed.
+Lemma nsub_real x y : @nsub R NumR x y = x - y. Proof. reflexivity. Qed.
+Lemma n0_real : @n0 R NumR = 0. Proof. reflexivity. Qed.
+Lemma n1_real : @n1 R NumR = 1. Proof. reflexivity. Qed.
+Lemma ndiv_real x y : y <> 0 -> @ndiv R NumR x y = x / y.
 Proof. intros H. cbn. now apply Rdivg_nz. Qed.
 
 (* ================================================================================== *)
@@ -196,8 +196,8 @@ Notation probR := (@prob R NumR K keq).
 Notation massR := (@mass R NumR K).
 Implicit Types d : distR.
 
-Lemma mass_R d : massR d = Rsum (map snd d).
-Proof. unfold mass, vals. apply psum_R. Qed.
+Lemma mass_Rsum d : massR d = Rsum (map snd d).
+Proof. unfold mass, vals. apply psum_Rsum. Qed.
 
 Lemma prob_in d kv : NoDup (keys d) -> In kv d -> probR d (fst kv) = snd kv.
 Proof. intros Hnd Hin. destruct kv as [k v]. unfold prob; simpl. now rewrite (dget_nodup_in d k v Hnd Hin). Qed.
@@ -251,7 +251,7 @@ Proof.
 Qed.
 Lemma mass_dadd d k v : massR (dadd keq d k v) = massR d + v.
 Proof.
-  rewrite !mass_R. unfold dadd, Rsum. induction d as [|kv r IH]; cbn [dupd map fold_right fst snd].
+  rewrite !mass_Rsum. unfold dadd, Rsum. induction d as [|kv r IH]; cbn [dupd map fold_right fst snd].
   - numR. lra.
   - destruct (keq k (fst kv)); cbn [dupd map fold_right fst snd]; [numR; lra|]. rewrite IH. lra.
 Qed.
@@ -329,7 +329,7 @@ Proof.
 Qed.
 
 Lemma mass_keys d : NoDup (keys d) -> massR d = Rsum (map (probR d) (keys d)).
-Proof. intros H. rewrite mass_R. now rewrite (map_snd_keys keq keq_spec). Qed.
+Proof. intros H. rewrite mass_Rsum. now rewrite (map_snd_keys keq keq_spec). Qed.
 
 (* ---------- from_pairs ---------- *)
 Theorem from_pairs_prob (l : distR) x :
@@ -415,17 +415,17 @@ Proof.
   rewrite (dget_filter_key keq keq_spec (wpos w)).
   destruct (wpos w x); [|reflexivity].
   destruct (dget keq d x); simpl.
-  - now rewrite ndiv_R.
+  - now rewrite ndiv_real.
   - numR. unfold Rdiv. lra.
 Qed.
 Theorem condition_mass w d :
   NoDup (keys d) -> cond_norm w d <> 0 -> massR (condition keq w d) = 1.
 Proof.
   intros Hnd Hn. unfold condition. rewrite (condition_acc_eq w d Hnd). cbn [fst snd].
-  rewrite (cond_list_sum w d Hnd). rewrite mass_R, map_map. cbn [snd].
+  rewrite (cond_list_sum w d Hnd). rewrite mass_Rsum, map_map. cbn [snd].
   rewrite (Rsum_map_ext_in _ (fun kv => snd kv / cond_norm w d)).
   - rewrite Rsum_map_div, (cond_list_sum w d Hnd). now field.
-  - intros. now apply ndiv_R.
+  - intros. now apply ndiv_real.
 Qed.
 Theorem condition_support w d :
   NoDup (keys d) -> keys (condition keq w d) = filter (wpos w) (keys d).
@@ -475,7 +475,7 @@ Lemma scale_keys d c : NoDup (keys d) -> keys (scale keq d c) = keys d.
 Proof. intros H. rewrite scale_nodup by assumption. unfold keys. rewrite map_map. reflexivity. Qed.
 Theorem scale_mass d c : NoDup (keys d) -> massR (scale keq d c) = massR d * c.
 Proof.
-  intros H. rewrite scale_nodup by assumption. rewrite !mass_R, map_map. simpl.
+  intros H. rewrite scale_nodup by assumption. rewrite !mass_Rsum, map_map. simpl.
   apply (Rsum_map_scal_r snd).
 Qed.
 
@@ -491,7 +491,7 @@ Theorem mix_prob d1 d2 x :
 Proof. intros H1 H2. rewrite mix_prob_raw, !(sum_match_prob keq keq_spec) by assumption. reflexivity. Qed.
 Theorem mix_mass d1 d2 : massR (mix keq d1 d2) = massR d1 + massR d2.
 Proof.
-  unfold mix. rewrite !(mass_fold_dadd keq fst snd). rewrite !mass_R. simpl. lra.
+  unfold mix. rewrite !(mass_fold_dadd keq fst snd). rewrite !mass_Rsum. simpl. lra.
 Qed.
 Lemma mix_nodup d1 d2 : NoDup (keys (mix keq d1 d2)).
 Proof. unfold mix. repeat apply (keys_fold_dadd_nodup keq keq_spec fst snd). constructor. Qed.
@@ -514,7 +514,7 @@ Proof.
 Qed.
 Lemma conj_norm_eq es d1 d2 :
   @psum R NumR (map snd (map (fun e => (e, (probR d1 e * probR d2 e)%num)) es)) = conj_norm es d1 d2.
-Proof. rewrite psum_R, map_map. reflexivity. Qed.
+Proof. rewrite psum_Rsum, map_map. reflexivity. Qed.
 
 Theorem conj_prob es d1 d2 x :
   conj_norm es d1 d2 <> 0 ->
@@ -524,14 +524,14 @@ Proof.
   intros Hn. unfold conj_on. cbv zeta. rewrite conj_norm_eq. unfold prob at 1.
   rewrite (dget_map_val keq keq_spec (fun _ v => (v / conj_norm es d1 d2)%num)).
   rewrite (dget_tabulate (fun e => (probR d1 e * probR d2 e)%num)).
-  destruct (memk keq x es); simpl; [|reflexivity]. now rewrite ndiv_R.
+  destruct (memk keq x es); simpl; [|reflexivity]. now rewrite ndiv_real.
 Qed.
 Theorem conj_mass es d1 d2 : conj_norm es d1 d2 <> 0 -> massR (conj_on keq es d1 d2) = 1.
 Proof.
-  intros Hn. unfold conj_on. cbv zeta. rewrite conj_norm_eq, mass_R, !map_map. cbn [snd].
+  intros Hn. unfold conj_on. cbv zeta. rewrite conj_norm_eq, mass_Rsum, !map_map. cbn [snd].
   rewrite (Rsum_map_ext_in _ (fun e => pprod d1 d2 e / conj_norm es d1 d2)).
   - rewrite Rsum_map_div. fold (conj_norm es d1 d2). now field.
-  - intros. now apply ndiv_R.
+  - intros. now apply ndiv_real.
 Qed.
 Lemma conj_keys es d1 d2 : keys (conj_on keq es d1 d2) = es.
 Proof. unfold conj_on, keys. cbv zeta. rewrite !map_map. simpl. apply map_id. Qed.
@@ -585,7 +585,7 @@ Proof.
   { unfold conj_norm. apply Rsum_map_ext_in. intros e _.
     apply oexp_score; now apply (prob_nonneg keq keq_spec). }
   rewrite E. apply map_ext. intros e. f_equal.
-  rewrite ndiv_R by lra.
+  rewrite ndiv_real by lra.
   pose proof (prob_nonneg keq keq_spec d1 e H1) as P1.
   pose proof (prob_nonneg keq keq_spec d2 e H2) as P2.
   pose proof (oexp_score _ _ P1 P2) as Eo.
@@ -622,10 +622,10 @@ Proof.
   intros Hnd Hm. rewrite normalize_nodup by assumption. repeat split.
   - intros x. unfold prob.
     rewrite (dget_map_val keq keq_spec (fun _ v => (v / massR d)%num)).
-    destruct (dget keq d x); simpl; [now rewrite ndiv_R|numR; unfold Rdiv; lra].
-  - rewrite mass_R at 1. rewrite map_map. cbn [snd].
-    rewrite (Rsum_map_ext_in _ (fun kv => snd kv / massR d)) by (intros; now apply ndiv_R).
-    rewrite (Rsum_map_div snd), <- mass_R. now field.
+    destruct (dget keq d x); simpl; [now rewrite ndiv_real|numR; unfold Rdiv; lra].
+  - rewrite mass_Rsum at 1. rewrite map_map. cbn [snd].
+    rewrite (Rsum_map_ext_in _ (fun kv => snd kv / massR d)) by (intros; now apply ndiv_real).
+    rewrite (Rsum_map_div snd), <- mass_Rsum. now field.
   - unfold keys. rewrite map_map. reflexivity.
 Qed.
 
@@ -654,7 +654,7 @@ Theorem marginalize_mass (f : K -> K2) d :
   @mass R NumR K2 (marginalize keq2 f d) = @mass R NumR K d.
 Proof.
   unfold marginalize. rewrite (mass_fold_dadd keq2 (fun kv => f (fst kv)) snd).
-  rewrite !mass_R. simpl. lra.
+  rewrite !mass_Rsum. simpl. lra.
 Qed.
 Theorem marginalize_prob_raw (f : K -> K2) d y :
   probK2 (marginalize keq2 f d) y = Rsum (map snd (filter (fun kv => keq2 (f (fst kv)) y) d)).
@@ -687,7 +687,7 @@ Lemma chain_inner_mass p (kl acc : list (K2 * R)) :
   = @mass R NumR K2 acc + p * @mass R NumR K2 kl.
 Proof.
   rewrite (mass_fold_dadd keq2 fst (fun kv2 => (p * snd kv2)%num)).
-  numR. rewrite (Rsum_map_scal snd), <- mass_R. reflexivity.
+  numR. rewrite (Rsum_map_scal snd), <- mass_Rsum. reflexivity.
 Qed.
 Lemma chain_outer_prob (kern : K -> list (K2 * R)) d acc y :
   (forall kv, In kv d -> NoDup (keys (kern (fst kv)))) ->
@@ -719,14 +719,14 @@ Proof.
        fold_left (fun acc2 kv2 => dadd keq2 acc2 (fst kv2) (snd kv * snd kv2)%num) (kern (fst kv)) acc)
        d acc) = @mass R NumR K2 acc + Rsum (map (fun kv => snd kv * @mass R NumR K2 (kern (fst kv))) d)).
   { induction d as [|kv r IH]; intros acc; simpl; [lra|]. rewrite IH, chain_inner_mass. lra. }
-  rewrite E, mass_R. simpl. lra.
+  rewrite E, mass_Rsum. simpl. lra.
 Qed.
 (* stochastic kernels preserve total mass *)
 Corollary chain_mass_stochastic (kern : K -> list (K2 * R)) d :
   (forall x, In x (keys d) -> @mass R NumR K2 (kern x) = 1) ->
   @mass R NumR K2 (chain keq2 kern d) = @mass R NumR K d.
 Proof.
-  intros H. rewrite chain_mass, mass_R. apply Rsum_map_ext_in. intros kv Hin.
+  intros H. rewrite chain_mass, mass_Rsum. apply Rsum_map_ext_in. intros kv Hin.
   rewrite H; [lra|]. unfold keys. now apply in_map.
 Qed.
 
@@ -786,7 +786,7 @@ Proof.
   rewrite (of_pairs_nodup peq pair_eqb_spec) by now apply joint_list_nodup.
   split; [|split].
   - intros x y. apply joint_list_prob.
-  - rewrite !mass_R. unfold joint_list. rewrite (Rsum_flat_map _ snd).
+  - rewrite !mass_Rsum. unfold joint_list. rewrite (Rsum_flat_map _ snd).
     rewrite (Rsum_map_ext_in _ (fun a => snd a * Rsum (map snd d2))).
     + rewrite (Rsum_map_scal_r snd). reflexivity.
     + intros a _. rewrite map_map. simpl. numR. apply (Rsum_map_scal snd).
@@ -836,7 +836,7 @@ Proof. intros H. rewrite nofnat_R. now apply lt_0_INR. Qed.
 Lemma uprob_in s e : In e s -> @uprob R NumR K keq s e = 1 / INR (length s).
 Proof.
   intros H. unfold uprob. apply (memk_In keq keq_spec) in H. rewrite H.
-  rewrite n1_R, ndiv_R, nofnat_R; [reflexivity|].
+  rewrite n1_real, ndiv_real, nofnat_R; [reflexivity|].
   rewrite nofnat_R. apply not_0_INR. destruct s; simpl in *; [discriminate|lia].
 Qed.
 Lemma uprob_pos s e : In e s -> 0 < @uprob R NumR K keq s e.
@@ -846,7 +846,7 @@ Proof.
 Qed.
 Theorem uniform_mass s : s <> [] -> massR (@items R NumR K keq (KUniform s)) = 1.
 Proof.
-  intros H. cbn [items]. rewrite mass_R, map_map. cbn [snd].
+  intros H. cbn [items]. rewrite mass_Rsum, map_map. cbn [snd].
   rewrite (Rsum_map_ext_in _ (fun _ => 1 / INR (length s))) by (intros; now apply uprob_in).
   rewrite Rsum_map_const. field. apply not_0_INR. destruct s; simpl; [congruence|lia].
 Qed.
@@ -892,3 +892,330 @@ Proof.
 Qed.
 
 End Kinds.
+
+(* ================================================================================== *)
+(* sampling: random.choices' cumulative-weight / bisect rule                            *)
+(* ================================================================================== *)
+Section Bisect.
+Variable a : list R.
+Variable x : R.
+Definition sortedR (l : list R) : Prop :=
+  forall i j, (i <= j)%nat -> (j < length l)%nat -> nth i l 0 <= nth j l 0.
+Hypothesis Hsorted : sortedR a.
+
+(* the binary search returns the partition point of x in a[0:hi0] *)
+Lemma bisect_right_spec hi0 fuel lo hi :
+  (hi - lo <= fuel)%nat -> (lo <= hi)%nat -> (hi <= hi0)%nat -> (hi0 <= length a)%nat ->
+  (forall i, (i < lo)%nat -> nth i a 0 <= x) ->
+  (forall i, (hi <= i)%nat -> (i < hi0)%nat -> x < nth i a 0) ->
+  let r := @bisect_right R NumR fuel a x lo hi in
+  (lo <= r)%nat /\ (r <= hi)%nat /\
+  (forall i, (i < r)%nat -> nth i a 0 <= x) /\
+  (forall i, (r <= i)%nat -> (i < hi0)%nat -> x < nth i a 0).
+Proof.
+  revert lo hi. induction fuel as [|fuel IH]; intros lo hi Hf Hle Hh0 Hlen Hlo Hhi; cbn [bisect_right].
+  - assert (lo = hi) by lia. subst. repeat split; auto.
+  - destruct (lo <? hi)%nat eqn:E.
+    + apply Nat.ltb_lt in E.
+      assert (Hmid : (lo <= (lo + hi) / 2)%nat /\ ((lo + hi) / 2 < hi)%nat).
+      { pose proof (Nat.div_mod (lo + hi) 2). pose proof (Nat.mod_upper_bound (lo + hi) 2). lia. }
+      set (mid := ((lo + hi) / 2)%nat) in *.
+      change (@n0 R NumR) with 0.
+      destruct (@nltb R NumR x (nth mid a 0)) eqn:Ex.
+      * apply nltb_R in Ex.
+        destruct (IH lo mid) as (H1 & H2 & H3 & H4); try lia; auto.
+        { intros i Hi1 Hi2. destruct (le_lt_dec hi i); [now apply Hhi|].
+          eapply Rlt_le_trans; [exact Ex|]. apply Hsorted; lia. }
+        repeat split; auto; lia.
+      * assert (Ex' : nth mid a 0 <= x).
+        { destruct (Rle_dec (nth mid a 0) x); [assumption|].
+          assert (x < nth mid a 0) by lra. apply nltb_R in H. congruence. }
+        destruct (IH (S mid) hi) as (H1 & H2 & H3 & H4); try lia; auto.
+        { intros i Hi. destruct (le_lt_dec lo i); [|now apply Hlo].
+          eapply Rle_trans; [|exact Ex']. apply Hsorted; lia. }
+        repeat split; auto; lia.
+    + apply Nat.ltb_ge in E. assert (lo = hi) by lia. subst. repeat split; auto.
+Qed.
+End Bisect.
+
+Lemma accum_from_length acc l : length (@accum_from R NumR acc l) = length l.
+Proof. revert acc; induction l; intros; simpl; [reflexivity|]. now rewrite IHl. Qed.
+Lemma accum_from_nth acc l i :
+  (i < length l)%nat -> nth i (@accum_from R NumR acc l) 0 = acc + Rsum (firstn (S i) l).
+Proof.
+  revert acc i; induction l as [|w r IH]; intros acc i Hi; [simpl in Hi; lia|].
+  cbn [accum_from]. cbv zeta. destruct i as [|i].
+  - simpl. numR. lra.
+  - cbn [nth]. rewrite IH by (simpl in Hi; lia). numR.
+    change (firstn (S (S i)) (w :: r)) with (w :: firstn (S i) r). simpl. lra.
+Qed.
+Lemma accumulate_length l : length (@accumulate R NumR l) = length l.
+Proof. destruct l; simpl; [reflexivity|]. now rewrite accum_from_length. Qed.
+Lemma accumulate_nth l i :
+  (i < length l)%nat -> nth i (@accumulate R NumR l) 0 = Rsum (firstn (S i) l).
+Proof.
+  destruct l as [|w r]; intros Hi; [simpl in Hi; lia|]. cbn [accumulate]. destruct i as [|i].
+  - simpl. lra.
+  - cbn [nth]. rewrite accum_from_nth by (simpl in Hi; lia).
+    change (firstn (S (S i)) (w :: r)) with (w :: firstn (S i) r). simpl. lra.
+Qed.
+Lemma In_firstn {A} (l : list A) n y : In y (firstn n l) -> In y l.
+Proof.
+  revert n; induction l as [|a r IH]; intros [|n]; simpl; try tauto.
+  intros [H|H]; [now left|right; eauto].
+Qed.
+Lemma Rsum_firstn_mono l i j :
+  (forall w, In w l -> 0 <= w) -> (i <= j)%nat -> Rsum (firstn i l) <= Rsum (firstn j l).
+Proof.
+  revert i j; induction l as [|w r IH]; intros i j Hw Hij.
+  - rewrite !firstn_nil. lra.
+  - destruct i as [|i], j as [|j]; try lia; simpl; try lra.
+    + assert (0 <= w) by (apply Hw; now left).
+      assert (0 <= Rsum (firstn j r)).
+      { apply Rsum_nonneg. intros y Hy. apply Hw. right. eapply In_firstn; eauto. }
+      lra.
+    + assert (Rsum (firstn i r) <= Rsum (firstn j r)).
+      { apply IH; [|lia]. intros; apply Hw; now right. }
+      lra.
+Qed.
+
+Lemma Rsum_firstn_S l i :
+  (i < length l)%nat -> Rsum (firstn (S i) l) = Rsum (firstn i l) + nth i l 0.
+Proof.
+  revert i; induction l as [|w r IH]; intros i Hi; [simpl in Hi; lia|].
+  destruct i as [|i]; [simpl; lra|].
+  change (firstn (S (S i)) (w :: r)) with (w :: firstn (S i) r).
+  change (firstn (S i) (w :: r)) with (w :: firstn i r).
+  cbn [Rsum fold_right nth]. fold (Rsum (firstn (S i) r)). fold (Rsum (firstn i r)).
+  rewrite IH by (simpl in Hi; lia). lra.
+Qed.
+
+Lemma accumulate_sorted ws : (forall w, In w ws -> 0 <= w) -> sortedR (@accumulate R NumR ws).
+Proof.
+  intros Hw i j Hij Hj. rewrite accumulate_length in Hj.
+  rewrite !accumulate_nth by lia. apply Rsum_firstn_mono; [assumption|lia].
+Qed.
+
+(* THE sampling lemma: for every u in [0,1) the faithful rule (accumulate, total, binary
+   bisect_right over [0, n-1)) returns a population element whose weight is positive *)
+Theorem sample_choices_positive {K} (pop : list K) (ws : list R) u :
+  length ws = length pop -> (forall w, In w ws -> 0 <= w) -> 0 < Rsum ws -> 0 <= u < 1 ->
+  exists i e, @sample_choices R NumR K pop ws u = Some e /\
+              nth_error pop i = Some e /\ (i < length pop)%nat /\ 0 < nth i ws 0.
+Proof.
+  intros Hlen Hw Htot Hu. unfold sample_choices. cbv zeta.
+  rewrite accumulate_length, Hlen, Nat.eqb_refl. cbn [negb].
+  destruct (length pop) as [|hi] eqn:En.
+  { destruct ws; [simpl in Htot; lra|discriminate]. }
+  set (cum := @accumulate R NumR ws).
+  assert (Hcl : length cum = S hi) by (unfold cum; now rewrite accumulate_length).
+  assert (Etot : nth hi cum n0 = Rsum ws).
+  { unfold cum. change (@n0 R NumR) with 0. rewrite accumulate_nth by lia.
+    rewrite <- Hlen. now rewrite firstn_all. }
+  rewrite Etot. change (@nleb R NumR (Rsum ws) n0) with (Rleb (Rsum ws) 0).
+  assert (Eleb : Rleb (Rsum ws) 0 = false) by (apply Rleb_false; lra). rewrite Eleb.
+  set (x := (u * Rsum ws)%num).
+  assert (Hx : 0 <= x < Rsum ws).
+  { unfold x. numR. split; [apply Rmult_le_pos; lra|].
+    rewrite <- (Rmult_1_l (Rsum ws)) at 2. apply Rmult_lt_compat_r; lra. }
+  destruct (bisect_right_spec cum x (accumulate_sorted ws Hw) hi (S hi) 0%nat hi)
+    as (_ & Hr & Hbelow & Habove); try lia.
+  set (r := @bisect_right R NumR (S hi) cum x 0 hi) in *.
+  assert (Hrn : (r < length pop)%nat) by lia.
+  destruct (nth_error pop r) as [e|] eqn:Ee; [|apply nth_error_None in Ee; lia].
+  exists r, e. split; [reflexivity|]. split; [exact Ee|]. split; [lia|].
+  (* cum[r] > x *)
+  assert (Hgt : x < nth r cum 0).
+  { destruct (Nat.eq_dec r hi) as [->|Hne].
+    - change (@n0 R NumR) with 0 in Etot. rewrite Etot. tauto.
+    - apply Habove; lia. }
+  unfold cum in Hgt. rewrite accumulate_nth in Hgt by lia.
+  rewrite Rsum_firstn_S in Hgt by lia.
+  destruct r as [|r'].
+  - unfold Rsum in Hgt. cbn [firstn fold_right] in Hgt. lra.
+  - assert (Hle : nth r' cum 0 <= x) by (apply Hbelow; lia).
+    unfold cum in Hle. rewrite accumulate_nth in Hle by lia. lra.
+Qed.
+
+Section Sampling.
+Context {K : Type} (keq : K -> K -> bool).
+Hypothesis keq_spec : forall a b, keq a b = true <-> a = b.
+Notation distR := (list (K * R)).
+Notation probR := (@prob R NumR K keq).
+Notation massR := (@mass R NumR K).
+
+Theorem sample_single (d : distR) e u : keys d = [e] -> @sample R NumR K keq d u = Some e.
+Proof. intros H. unfold sample. now rewrite H. Qed.
+
+Theorem sample_positive (d : distR) u :
+  NoDup (keys d) -> (forall kv, In kv d -> 0 <= snd kv) -> 0 < massR d -> 0 <= u < 1 ->
+  exists e, @sample R NumR K keq d u = Some e /\ 0 < probR d e.
+Proof.
+  intros Hnd Hw Hm Hu.
+  assert (Hgen : exists e, @sample_choices R NumR K (keys d) (map (probR d) (keys d)) u = Some e
+                           /\ 0 < probR d e).
+  { rewrite <- (map_snd_keys keq keq_spec d Hnd).
+    destruct (sample_choices_positive (keys d) (map snd d) u) as (i & e & Hs & He & Hi & Hp); auto.
+    - unfold keys. now rewrite !map_length.
+    - intros w Hin. apply in_map_iff in Hin. destruct Hin as (kv & <- & Hin). now apply Hw.
+    - now rewrite <- mass_Rsum.
+    - exists e. split; [exact Hs|].
+      unfold keys in He. rewrite nth_error_map in He.
+      destruct (nth_error d i) as [kv|] eqn:Ekv; [|discriminate]. injection He as <-.
+      assert (Hin : In kv d) by (eapply nth_error_In; eauto).
+      rewrite (prob_in keq keq_spec d kv Hnd Hin).
+      apply nth_error_nth with (d := (fst kv, 0)) in Ekv.
+      replace (snd kv) with (nth i (map snd d) 0); [exact Hp|].
+      change 0 with (snd (fst kv, 0)) at 1. rewrite map_nth, Ekv. reflexivity. }
+  unfold sample. destruct (keys d) as [|e [|e2 r]] eqn:Ek; try exact Hgen.
+  exists e. split; [reflexivity|].
+  destruct d as [|[k p] [|kv2 d']]; try discriminate. simpl in Ek. injection Ek as ->.
+  rewrite mass_Rsum in Hm. simpl in Hm. unfold prob. simpl. rewrite (keq_refl keq keq_spec). lra.
+Qed.
+
+(* the one-element shortcut does not look at the weight: a zero-mass one-entry table is sampled
+   although its only event has probability 0 (outside the property: that is not a distribution) *)
+Remark sample_single_zero_mass e u :
+  @sample R NumR K keq [(e, 0)] u = Some e /\ probR [(e, 0)] e = 0.
+Proof. split; [reflexivity|]. unfold prob. simpl. now rewrite (keq_refl keq keq_spec). Qed.
+
+(* sampling sequences are a function of the generator's output stream: equal streams (equally
+   seeded generators) give identical sample sequences *)
+Theorem sample_seq_deterministic (d : distR) us1 us2 :
+  us1 = us2 -> @sample_seq R NumR K keq d us1 = @sample_seq R NumR K keq d us2.
+Proof. now intros ->. Qed.
+Theorem sample_seq_positive (d : distR) us :
+  NoDup (keys d) -> (forall kv, In kv d -> 0 <= snd kv) -> 0 < massR d ->
+  (forall u, In u us -> 0 <= u < 1) ->
+  forall o, In o (@sample_seq R NumR K keq d us) -> exists e, o = Some e /\ 0 < probR d e.
+Proof.
+  intros Hnd Hw Hm Hus o Hin. unfold sample_seq in Hin. apply in_map_iff in Hin.
+  destruct Hin as (u & <- & Hu). now apply sample_positive; auto.
+Qed.
+
+Theorem uniform_sample_positive (s : list K) i :
+  (i < length s)%nat ->
+  exists e, uniform_sample s i = Some e /\ 0 < @uprob R NumR K keq s e.
+Proof.
+  intros Hi. unfold uniform_sample. destruct (nth_error s i) as [e|] eqn:E.
+  - exists e. split; [reflexivity|]. apply (uprob_pos keq keq_spec). eapply nth_error_In; eauto.
+  - apply nth_error_None in E. lia.
+Qed.
+
+(* sampling, per kind, only returns events to which that kind's own prob gives positive probability *)
+Theorem ksample_positive (k : @kind R K) u i :
+  NoDup (keys (@items R NumR K keq k)) ->
+  (forall kv, In kv (@items R NumR K keq k) -> 0 <= snd kv) ->
+  0 < massR (@items R NumR K keq k) -> 0 <= u < 1 ->
+  (forall s, k = KUniform s -> (i < length s)%nat) ->
+  exists e, @ksample R NumR K keq k u i = Some e /\ 0 < @kprob R NumR K keq k e.
+Proof.
+  intros Hnd Hw Hm Hu Hi.
+  destruct k as [l|l|s|v|dom data].
+  1,2,5: (cbn [ksample]; destruct (sample_positive _ u Hnd Hw Hm Hu) as (e & Hs & Hp);
+          exists e; split; [exact Hs|]; now rewrite (kinds_agree keq keq_spec)).
+  - cbn [ksample kprob]. apply uniform_sample_positive. now apply Hi.
+  - exists v. split; [reflexivity|]. cbn [kprob]. unfold detprob.
+    rewrite (keq_refl keq keq_spec). numR. lra.
+Qed.
+
+(* ================================================================================== *)
+(* softmax (SoftmaxDistribution): needs exp, R only                                     *)
+(* ================================================================================== *)
+(* scores is the dict built by the constructor: unique keys, insertion order *)
+Definition softmax_at (c : R) (scores : distR) : distR :=
+  let Z := Rsum (map (fun kv => exp (snd kv - c)) scores) in
+  map (fun kv => (fst kv, exp (snd kv - c) / Z)) scores.
+(* max(scores.values()) *)
+Definition maxscore (scores : distR) : R :=
+  match scores with [] => 0 | kv :: r => fold_left Rmax (map snd r) (snd kv) end.
+Definition softmax (scores : distR) : distR := softmax_at (maxscore scores) scores.
+
+Lemma Rsum_exp_pos (c : R) (scores : distR) :
+  scores <> [] -> 0 < Rsum (map (fun kv => exp (snd kv - c)) scores).
+Proof.
+  destruct scores as [|kv r]; [congruence|]. intros _. cbn [map]. unfold Rsum. cbn [fold_right].
+  fold (Rsum (map (fun kv0 : K * R => exp (snd kv0 - c)) r)).
+  assert (0 <= Rsum (map (fun kv0 : K * R => exp (snd kv0 - c)) r)).
+  { apply Rsum_nonneg. intros y Hy. apply in_map_iff in Hy. destruct Hy as (z & <- & _).
+    left. apply exp_pos. }
+  pose proof (exp_pos (snd kv - c)). lra.
+Qed.
+
+Theorem softmax_at_normalised c scores : scores <> [] -> massR (softmax_at c scores) = 1.
+Proof.
+  intros H. unfold softmax_at. cbv zeta. rewrite mass_Rsum, map_map. cbn [snd].
+  rewrite (Rsum_map_div (fun kv => exp (snd kv - c))).
+  pose proof (Rsum_exp_pos c scores H). field. lra.
+Qed.
+Theorem softmax_normalised scores : scores <> [] -> massR (softmax scores) = 1.
+Proof. apply softmax_at_normalised. Qed.
+
+(* the subtracted constant is irrelevant (so msdm's max-shift changes nothing) ... *)
+Lemma softmax_at_any c scores : softmax_at c scores = softmax_at 0 scores.
+Proof.
+  destruct scores as [|kv0 r0] eqn:E; [reflexivity|]. rewrite <- E.
+  assert (Hne : scores <> []) by (rewrite E; discriminate).
+  unfold softmax_at. cbv zeta.
+  assert (EZ : Rsum (map (fun kv => exp (snd kv - c)) scores) =
+               Rsum (map (fun kv => exp (snd kv - 0)) scores) * exp (- c)).
+  { rewrite <- Rsum_map_scal_r. apply Rsum_map_ext_in. intros kv _.
+    rewrite <- exp_plus. f_equal. lra. }
+  rewrite EZ. apply map_ext. intros kv. f_equal.
+  replace (snd kv - c) with ((snd kv - 0) + - c) by lra. rewrite exp_plus.
+  pose proof (Rsum_exp_pos 0 scores Hne). pose proof (exp_pos (- c)). field. split; lra.
+Qed.
+(* ... and adding a constant to every score does not change the distribution *)
+Definition shift_scores (r : R) (scores : distR) : distR :=
+  map (fun kv => (fst kv, snd kv + r)) scores.
+Theorem softmax_shift_invariant r scores : softmax (shift_scores r scores) = softmax scores.
+Proof.
+  unfold softmax. rewrite (softmax_at_any (maxscore scores)).
+  generalize (maxscore (shift_scores r scores)). intros c.
+  transitivity (softmax_at (c - r) scores); [|apply softmax_at_any].
+  unfold softmax_at, shift_scores. cbv zeta. rewrite !map_map. cbn [fst snd].
+  assert (E : forall kv : K * R, exp (snd kv + r - c) = exp (snd kv - (c - r))) by (intros; f_equal; lra).
+  rewrite (Rsum_map_ext_in _ (fun kv => exp (snd kv - (c - r)))) by (intros; apply E).
+  apply map_ext. intros kv. now rewrite E.
+Qed.
+Theorem softmax_prob scores e :
+  scores <> [] ->
+  probR (softmax scores) e =
+  match dget keq scores e with
+  | Some s => exp s / Rsum (map (fun kv => exp (snd kv)) scores)
+  | None => 0
+  end.
+Proof.
+  intros H. unfold softmax. rewrite softmax_at_any. unfold softmax_at, prob. cbv zeta.
+  rewrite (dget_map_val keq keq_spec
+             (fun _ s => exp (s - 0) / Rsum (map (fun kv => exp (snd kv - 0)) scores))).
+  destruct (dget keq scores e); simpl; [|reflexivity].
+  rewrite Rminus_0_r. f_equal. apply Rsum_map_ext_in. intros kv _. now rewrite Rminus_0_r.
+Qed.
+(* the same with any subtracted constant m (msdm uses m = max score): the form the per-case
+   interval proofs of the correspondence harness start from *)
+Theorem softmax_prob_at m scores e :
+  scores <> [] ->
+  probR (softmax scores) e =
+  match dget keq scores e with
+  | Some s => exp (s - m) / Rsum (map (fun kv => exp (snd kv - m)) scores)
+  | None => 0
+  end.
+Proof.
+  intros H. unfold softmax. rewrite (softmax_at_any (maxscore scores)), <- (softmax_at_any m).
+  unfold softmax_at, prob. cbv zeta.
+  rewrite (dget_map_val keq keq_spec
+             (fun _ s => exp (s - m) / Rsum (map (fun kv => exp (snd kv - m)) scores))).
+  destruct (dget keq scores e); reflexivity.
+Qed.
+Lemma softmax_entries_pos scores kv : In kv (softmax scores) -> 0 < snd kv.
+Proof.
+  unfold softmax, softmax_at. cbv zeta. intros H. apply in_map_iff in H.
+  destruct H as (kv0 & <- & Hin). cbn [snd].
+  assert (scores <> []) by (intros ->; contradiction).
+  apply Rdiv_lt_0_compat; [apply exp_pos|now apply Rsum_exp_pos].
+Qed.
+Lemma softmax_keys scores : keys (softmax scores) = keys scores.
+Proof. unfold softmax, softmax_at, keys. cbv zeta. rewrite map_map. reflexivity. Qed.
+
+End Sampling.
